@@ -79,6 +79,22 @@ func ruleI7(c *Ctx) {
 			if call, ok := cv.(*ssa.Call); ok && call.Call.StaticCallee() != nil && call.Call.StaticCallee().Name() == "isSmall" && taken {
 				proven = "isSmall(x)"
 			}
+			// a bool predicate helper comparing its argument with the smallints region
+			if call, ok := cv.(*ssa.Call); ok && taken {
+				if cal := call.Call.StaticCallee(); cal != nil && cal.Blocks != nil && fnPkgPath(cal) == fnPkgPath(get) && cal.Name() != "isSmall" {
+					readsRegion := false
+					eachInstr(cal, func(in2 ssa.Instruction) {
+						if ld, ok := in2.(*ssa.UnOp); ok {
+							if g, ok := ld.X.(*ssa.Global); ok && g.Name() == "smallints" {
+								readsRegion = true
+							}
+						}
+					})
+					if readsRegion {
+						proven = "pointer lies in the reserved small-int region (" + cal.Name() + ")"
+					}
+				}
+			}
 			if b, ok := cv.(*ssa.BinOp); ok && taken && (b.Op == token.LSS || b.Op == token.GEQ) {
 				// ptr >= smallints && ptr < smallints+1<<32
 				for y := range backSlice(b) {
